@@ -65,7 +65,7 @@ class Retarget(Machine):
         "rejected_n_points", "rejected_n_dims", "rejected_between_accepted", "set_target_on_copy",
         "mirror_needed_allow_off", "mirror_needed_allow_on", "similarity_rotation_off",
         "tps_floor_matters", "gpa_checked", "gpa_not_converged", "noise_before_retarget", "pinv_retargeted",
-        "integer_dtype_first_target", "same_target_reset_after_inplace_edit")
+        "integer_dtype_first_target", "same_target_reset_after_inplace_edit", "target_is_a_pointcloud_subclass")
 
     @classmethod
     def swarm(cls, rng, tier):
@@ -121,8 +121,15 @@ class Retarget(Machine):
         self.pool = []
         self.passed = []  # (PointCloud, snapshot) of every point set the caller handed over
 
-    def _pass(self, arr, trimesh=False):
-        pc = TriMesh(arr.copy()) if trimesh else PointCloud(arr.copy())
+    def _pass(self, arr, trimesh=False, graph=False):
+        if graph:
+            # any PointCloud subclass is a legal target
+            from menpo.shape import PointUndirectedGraph
+            n = arr.shape[0]
+            pc = PointUndirectedGraph.init_from_edges(arr.copy(), np.array([[i, (i + 1) % n] for i in range(n - 1)]).reshape(-1, 2))
+            self.ctx.probe("target_is_a_pointcloud_subclass")
+        else:
+            pc = TriMesh(arr.copy()) if trimesh else PointCloud(arr.copy())
         self.passed.append((pc, pc.points.copy(), pc.trilist.copy() if trimesh else None))
         return pc
 
@@ -231,7 +238,7 @@ class Retarget(Machine):
             return
         e = self.pool[op["i"] % len(self.pool)]
         t = self._target_array(e, op["seed"], op["mode"] % 4)
-        tobj = self._pass(t)
+        tobj = self._pass(t, graph=bool(op["seed"] % 5 == 0))
         try:
             e.al.set_target(tobj)
         except Exception as ex:
